@@ -2426,9 +2426,22 @@ class Engine:
             return h
         if not node.keys:
             return [(st, EmptyDictV())]
-        h = self.ctx_hook('dict_display', st, node)
-        if h is not None:
-            return h
+        import ast as _ast
+        if all(isinstance(k, _ast.Constant) and isinstance(k.value, str) for k in node.keys):
+            # {'a': x, 'b': y}: a new dict with literal keys (heap cell: key -> value, insertion order)
+            cur = [(st, {})]
+            for k, vnode in zip(node.keys, node.values):
+                nxt = []
+                for s, acc in cur:
+                    for s2, v in self.eval(vnode, s):
+                        nxt.append((s2, dict(acc, **{k.value: v})))
+                cur = nxt
+            res = []
+            for s, acc in cur:
+                oid = self.new_oid()
+                s.heap[oid] = acc
+                res.append((s, DictV(oid)))
+            return res
         raise Unsupported('dict display')
 
     def expr_Set(self, node, st):
